@@ -108,7 +108,15 @@ fn get_query_components(
                     Some(sqlparser::ast::LimitClause::LimitOffset { limit, offset, .. }) => {
                         (limit, offset)
                     }
-                    _ => (None, None),
+                    // `LIMIT <offset>, <limit>`
+                    Some(sqlparser::ast::LimitClause::OffsetCommaLimit { offset, limit }) => (
+                        Some(limit),
+                        Some(sqlparser::ast::Offset {
+                            value: offset,
+                            rows: sqlparser::ast::OffsetRows::None,
+                        }),
+                    ),
+                    None => (None, None),
                 };
                 Ok((
                     projection,
